@@ -224,6 +224,7 @@ func (e *M13FakeEtcd) serve(w http.ResponseWriter, r *http.Request) {
 // every member (what a real raft log guarantees for a new leader's state).
 
 type M13RaftGroup struct {
+	cmdMu   sync.Mutex // serialises commands (never held while answering Leader()/State())
 	mu      sync.Mutex
 	leader  string
 	members []*M13Raft
@@ -301,14 +302,18 @@ type m13DeprecatedApply interface {
 // group lock (raft serialises commands), on every member.
 func (m *M13Raft) Do(command raft.Command) (interface{}, error) {
 	g := m.group
+	g.cmdMu.Lock()
+	defer g.cmdMu.Unlock()
 	g.mu.Lock()
-	defer g.mu.Unlock()
-	if g.leader != m.name {
+	isLeader := g.leader == m.name
+	members := append([]*M13Raft{}, g.members...)
+	g.mu.Unlock()
+	if !isLeader {
 		return nil, raft.NotLeaderError
 	}
 	var ret interface{}
 	var err error
-	for _, mem := range g.members {
+	for _, mem := range members {
 		switch c := command.(type) {
 		case raft.CommandApply:
 			_ = c
